@@ -572,7 +572,8 @@ sqf::runtime::runtime::result sqf::runtime::runtime::execute(sqf::runtime::runti
                 if (dinf.has_value() && m_context_active && !m_context_active->empty())
                 {
                     auto next_inst = m_context_active->current_frame().peek(success);
-                    if (success && dinf.value() != (*next_inst)->diag_info())
+                    // a *line* step: stop at the first instruction of another line (not of another column)
+                    if (success && (dinf->line != (*next_inst)->diag_info().line || dinf->path.physical != (*next_inst)->diag_info().path.physical))
                     {
                         break;
                     }
